@@ -182,7 +182,31 @@ pub fn c01(tier: &str) -> Vec<Family> {
         && !s.label.contains("tag40") && !s.label.contains("tag42") && !s.label.contains("tag46") && !s.label.contains("tag48")
         && !s.label.contains("tag52") && !s.label.contains("tag54"));
     fams.push(f);
+    // Stepping on after a clock error (the stepping sequences of C18 under clocks that
+    // lag beyond the tolerance): whatever the calls return, nothing may run late.
+    let mut g = c18(tier).remove(0);
+    g.name = "after_clock_error";
+    g.tags = TAGS_TIME;
+    g.scenarios.retain(|s| s.label.starts_with("lag_above") || s.label.starts_with("lag_no_tolerance"));
+    fams.push(g);
+    // Start times before the epoch (-7 s) and crossing it (-1 s + 999_999_998 ns).
+    for (name, secs) in [("driver_sequences@-1s", -1i64), ("driver_sequences@-7s", -7)] {
+        let sc: Vec<Scenario> = seqs(&alpha, 3).into_iter().enumerate().map(|(i, cmds)| scn(format!("seq#{}", i), &spec, cmds)).collect();
+        fams.push(Family::new(name, TAGS_TIME, sc).epoch(secs));
+    }
+    for (name, secs) in [("deadline_boundaries@-1s", -1i64), ("deadline_boundaries@-7s", -7)] {
+        let mut h = c08(tier).remove(0);
+        h.name = name;
+        h.tags = TAGS_TIME;
+        h.hang_is_violation = false;
+        h.scenarios.retain(|s| !zero_period_label(&s.label));
+        fams.push(h.epoch(secs));
+    }
     fams
+}
+
+fn zero_period_label(l: &str) -> bool {
+    l.contains("Periodic(0)") || ["tag22", "tag24", "tag28", "tag30", "tag34", "tag36", "tag40", "tag42", "tag46", "tag48", "tag52", "tag54"].iter().any(|t| l.contains(t))
 }
 
 // ---------------------------------------------------------------------------
@@ -413,6 +437,56 @@ pub fn c03(tier: &str) -> Vec<Family> {
         }
     }
     let mut fams = vec![Family::new("port_kinds", TAGS_DELIVERY, sc).cap(cap)];
+
+    // Every order in which connections of different kinds (models and sinks, plain /
+    // map / filter_map) are added to one port, directly or through a clone of the port.
+    let kind_at = |k: usize, pos: usize| -> Conn {
+        match k {
+            0 => to(1 + pos),
+            1 => tom(1 + pos, Mode::Map(1000)),
+            2 => tom(1 + pos, Mode::Filter(0)),
+            3 => Conn::Buf { sink: pos, mode: Mode::Plain },
+            4 => Conn::Buf { sink: pos, mode: Mode::Map(7) },
+            5 => Conn::Buf { sink: pos, mode: Mode::Filter(1) },
+            6 => Conn::Slot { sink: pos, mode: Mode::Plain },
+            7 => Conn::Slot { sink: pos, mode: Mode::Map(7) },
+            _ => Conn::Slot { sink: pos, mode: Mode::Filter(1) },
+        }
+    };
+    let order_bench = |direct: Vec<Conn>, through_clone: Vec<Conn>| -> Arc<BenchSpec> {
+        // A sends two messages through its port, then Z sends two through its clone of that port.
+        let a = NodeSpec::new("A", 4).script(1, vec![sendp(0, 2, 0), sendp(0, 2, 1)]).out(direct);
+        let mut nodes = vec![a, NodeSpec::new("B", 2), NodeSpec::new("C", 2), NodeSpec::new("D", 2)];
+        let mut z = NodeSpec::new("Z", 4).script(1, vec![sendp(0, 2, 10), sendp(0, 2, 11)]);
+        z.share_out = Some((0, 0));
+        z.share_conns = through_clone;
+        nodes.push(z);
+        let mut s = BenchSpec::new(nodes);
+        s.bufs = vec![64, 64, 64];
+        s.slots = 3;
+        Arc::new(s)
+    };
+    let mut sc_o = vec![];
+    for k0 in 0..9usize {
+        for k1 in 0..9usize {
+            for split in 0..=2usize {
+                // split = number of connections made directly (the rest through the clone).
+                let all = vec![kind_at(k0, 0), kind_at(k1, 1)];
+                let s = order_bench(all[..split].to_vec(), all[split..].to_vec());
+                sc_o.push(scn(format!("order/{}-{}/direct{}", k0, k1, split), &s, vec![pe(0, 1, 0), pe(4, 1, 0)]));
+            }
+            for k2 in 0..9usize {
+                if tier == "quick" && (k0 + 2 * k1 + 3 * k2) % 3 != 0 {
+                    continue;
+                }
+                let all = vec![kind_at(k0, 0), kind_at(k1, 1), kind_at(k2, 2)];
+                let split = (k0 + k1 + k2) % 4;
+                let s = order_bench(all[..split].to_vec(), all[split..].to_vec());
+                sc_o.push(scn(format!("order/{}-{}-{}/direct{}", k0, k1, k2, split), &s, vec![pe(0, 1, 0), pe(4, 1, 1)]));
+            }
+        }
+    }
+    fams.push(Family::new("connection_orders", TAGS_DELIVERY, sc_o).cap(cap));
 
     // Scheduler-originated batches: k same-time events from one origin into a
     // mailbox of capacity c (the compound future has to wait for space).
@@ -906,8 +980,38 @@ pub fn c08(tier: &str) -> Vec<Family> {
             }
         }
     }
-    vec![Family::new("request_validation", TAGS_SCHED, sc).hang_violation()]
+    // The same requests made from `Model::init()` (the time seen there is the start time).
+    let mut sc_init = vec![];
+    for w in whens {
+        for kd in kinds {
+            let a = NodeSpec::new("A", 2).script(1, vec![Op::ReadTime]).init(vec![Op::ReadTime, sched_self(kd, w, 1, 0), Op::ReadTime]);
+            let spec = Arc::new(BenchSpec::new(vec![a]));
+            for (sn, suf) in &suffixes {
+                sc_init.push(scn(format!("init/{}/{:?}/{:?}", sn, w, kd), &spec, suf.clone()));
+            }
+        }
+    }
+    vec![
+        Family::new("request_validation", TAGS_SCHED, sc).hang_violation(),
+        Family::new("requests_from_init", TAGS_SCHED_INIT, sc_init).hang_violation(),
+        Family::new("requests_from_init@-1s", TAGS_SCHED_INIT, {
+            let a = NodeSpec::new("A", 2).script(1, vec![Op::ReadTime]).init(vec![
+                Op::ReadTime,
+                sched_self(SKind::Once, When::Rel(1), 1, 0),
+                sched_self(SKind::Periodic(2), When::Abs(3), 1, 0),
+                sched_self(SKind::Once, When::Abs(0), 1, 0),
+            ]);
+            let spec = Arc::new(BenchSpec::new(vec![a]));
+            suffixes.iter().map(|(sn, suf)| scn(format!("init@-1s/{}", sn), &spec, suf.clone())).collect()
+        })
+        .hang_violation()
+        .epoch(-1),
+    ]
 }
+
+pub const TAGS_SCHED_INIT: &[&str] = &[
+    "sched_validation", "pending_not_future", "sched_missed", "sched_dup", "sched_wrong_time", "sched_overdue", "time_read", "handler_time",
+];
 
 // ---------------------------------------------------------------------------
 // C09
